@@ -357,17 +357,21 @@ func DNSCaching(ttl time.Duration) func(*Attacker) {
 					return nil, err
 				}
 
-				ips, err := resolver.LookupHost(ctx, host)
+				cached, err := resolver.LookupHost(ctx, host)
 				if err != nil {
 					return nil, err
 				}
 
-				if len(ips) == 0 {
+				if len(cached) == 0 {
 					return nil, &net.DNSError{Err: "no such host", Name: addr}
 				}
 
 				// Pick a random IP from each IP family and dial each concurrently.
 				// The first that succeeds wins, the other gets canceled.
+
+				// The returned slice is the cache entry itself, shared with all
+				// other dials, so shuffle and filter a copy of it.
+				ips := append([]string(nil), cached...)
 
 				rng.Shuffle(len(ips), func(i, j int) { ips[i], ips[j] = ips[j], ips[i] })
 
